@@ -23,6 +23,17 @@ HEAD=$(git -C /repo rev-parse HEAD)
 [ -d $V ] || git -C /repo worktree add --detach $V $HEAD >/dev/null 2>&1
 git -C $V checkout -q -- . ; git -C $V clean -fdq -e target -e .verif-harness -e .verif-target -e .verif-out; git -C $V checkout -q --detach $HEAD
 res() { echo "$1" >> $OUT/verification.txt; }
+if [ -n "${SEED_CHECKS_ONLY:-}" ]; then
+  git -C $V apply $OUT/patch.diff || exit 1
+  for c in ${CHECKS//,/ }; do
+    /verif/tools/mutant_run.sh $V $c quick > $OUT/check_$c.full.log 2>&1; code=$?
+    sig=$(grep -m6 "violation x" $OUT/check_$c.full.log | tr '\n' ' ' | cut -c1-600)
+    res "recheck($(git -C /verif rev-parse --short HEAD)+wip) $c exit=$code $sig"
+    grep -E "violation x|VIOLATION|MACHINERY|KNOWN-FINDING|tier=|error" $OUT/check_$c.full.log | cut -c1-400 | head -60 > $OUT/check_$c.log; rm -f $OUT/check_$c.full.log
+  done
+  git -C $V checkout -q -- .
+  exit 0
+fi
 : > $OUT/verification.txt
 res "repo_head=$HEAD"
 if ! git -C $V apply --check $OUT/patch.diff 2>$OUT/apply.err; then res "apply=FAILED"; exit 1; fi
@@ -37,6 +48,13 @@ if [ -z "${SEED_SKIP_BASELINE:-}" ]; then
   res "baseline_with_patch: $SUM"
   FAILS=$(grep -E "^\s+(FAIL|SIGABRT|SIGSEGV|TIMEOUT|LEAK-FAIL) " $OUT/baseline_with_patch.log | sed -E 's/.*\) +//' | sort -u | grep -v "echo-wesley-gen::generation" | grep -v "inverse_intent_resolves_one_admitted_transition_after_restart")
   res "unexpected_failures=$(echo $FAILS | tr '\n' ' ')"
+  # tests that only timed out (busy box) are re-run alone
+  grep -E "^\s+TIMEOUT " $OUT/baseline_with_patch.log | sed -E 's/.*\) +//' | sort -u | while read -r bin t; do
+    [ -z "$t" ] && continue
+    pkg=${bin%%::*}
+    ( cd $V && cargo nextest run --offline -p $pkg --tool-config-file pb:/w/lib/nextest.toml --profile pb -E "test(=$t)" ) > $OUT/rerun.tmp 2>&1
+    res "rerun_timed_out $bin $t: $(grep -E '^\s+Summary' $OUT/rerun.tmp | tail -1)"
+  done; rm -f $OUT/rerun.tmp
   # keep the log small: summary + failures only
   grep -E "Summary|FAIL|SIGABRT|SIGSEGV|TIMEOUT|error" $OUT/baseline_with_patch.log | head -100 > $OUT/baseline_with_patch.short.log; rm -f $OUT/baseline_with_patch.log
 fi
